@@ -590,11 +590,63 @@ func checkReturnParser(w *World, r *Result) {
 		blob  bool
 		pos   token.Pos
 	}
+	// when the parser returns its findings instead of storing them, the blob flag is the result that a caller turns
+	// into IsReturnBlob (`if isBlob { out.IsReturnBlob = true }` or `out.IsReturnBlob = isBlob`)
+	blobResult := -1
+	for _, caller := range sortedFuncs(w) {
+		if caller.Pkg != fi.Pkg || caller.Decl.Body == nil {
+			continue
+		}
+		ast.Inspect(caller.Decl.Body, func(x ast.Node) bool {
+			as, ok := x.(*ast.AssignStmt)
+			if !ok || len(as.Rhs) != 1 || len(as.Lhs) < 2 {
+				return true
+			}
+			call, ok := as.Rhs[0].(*ast.CallExpr)
+			if !ok || calleeOf(info, call) != fi.Obj {
+				return true
+			}
+			lhsIdx := map[types.Object]int{}
+			for j, l := range as.Lhs {
+				if lid := identOf(l); lid != nil && lid.Name != "_" {
+					lhsIdx[objOf(info, lid)] = j
+				}
+			}
+			ast.Inspect(caller.Decl.Body, func(y ast.Node) bool {
+				st, ok := y.(*ast.AssignStmt)
+				if !ok || len(st.Lhs) != 1 || len(st.Rhs) != 1 || !strings.HasSuffix(es(st.Lhs[0]), ".IsReturnBlob") {
+					return true
+				}
+				if id := identOf(st.Rhs[0]); id != nil {
+					if j, ok := lhsIdx[objOf(info, id)]; ok {
+						blobResult = j
+					}
+				}
+				if es(st.Rhs[0]) == "true" {
+					// the innermost condition on one of the results decides
+					for _, c := range pathCondsRaw(caller.Decl, st) {
+						if id := identOf(c.expr); id != nil && c.truth {
+							if j, ok := lhsIdx[objOf(info, id)]; ok {
+								blobResult = j
+							}
+						}
+					}
+				}
+				return true
+			})
+			return true
+		})
+	}
 	var brs []*br
 	for _, d := range stringDispatch(info, fi.Decl.Body, func(e ast.Expr) bool { return strings.HasSuffix(es(e), ".Sel.Name") }) {
 		b := &br{names: d.names, idx: map[int]bool{}, pos: d.pos}
 		for _, st := range d.body {
 			ast.Inspect(st, func(y ast.Node) bool {
+				if ret, ok := y.(*ast.ReturnStmt); ok && blobResult >= 0 && blobResult < len(ret.Results) {
+					if tv := info.Types[ret.Results[blobResult]]; tv.Value != nil && tv.Value.Kind() == constant.Bool && constant.BoolVal(tv.Value) {
+						b.blob = true
+					}
+				}
 				if ix, ok := y.(*ast.IndexExpr); ok && strings.HasSuffix(es(ix.X), ".Args") {
 					if k, ok := constInt(info, ix.Index); ok {
 						b.idx[k] = true
